@@ -13,7 +13,7 @@ from vlib import *
 
 PROP = 'C04'
 IMPORTS = 'Base.F32 Model.Ops Model.Expr Model.Typing Corr.C04'
-W = os.path.join(WORK, 'c04')
+W = os.path.join(WORK, 'c04', 'run-%d' % os.getpid())   # per invocation: two checks of the same property may run at once
 
 def abs_pragmas(text, base):
     """mapfile / image source pragmas with relative paths -> absolute (inputs are run from a scratch directory)"""
@@ -172,7 +172,7 @@ def main(argv):
             f, s, _, _, _, _ = parse(run(v, c04, replay_cmd(r), seed, 'corpus replay'))
             for x in f: x['desc'] = 'corpus/C04/known/%s' % os.path.basename(kf)
             fails += f
-        budget, nexec, ncorr = (1300, 20, 600) if tier == 'quick' else (40000, 300, 30000)
+        budget, nexec, ncorr = (1100, 20, 600) if tier == 'quick' else (40000, 300, 30000)
         sc = float(os.environ.get('VERIF_BUDGET_SCALE', '1'))   # for trying out a tier quickly; 1 in normal use
         budget, nexec, ncorr = [max(10, int(x * sc)) for x in (budget, nexec, ncorr)]
         f, s, d, he, _, _ = parse(run(v, c04, ['fuzz', mf, budget, tier, nexec], seed, 'fuzz'))
@@ -243,6 +243,7 @@ def main(argv):
         'samples': [{'kind': c[0], 'case': c[1][:400], 'source': (c[3] if len(c) > 3 else '')[:200]} for c in cases[:1] + cases[-2:]],
         'exhaustive': False,
     })
+    shutil.rmtree(W, ignore_errors=True)
     return v.finish(
         level='proof',
         checker_cmd='gen/optable.py gen/emitsites.py gen/abiletters.py ; cd coq && make theories/Corr/C04.vo theories/Props/C04.vo ; coqc work/audit_C04.v ; harness/target/debug/c04 fuzz|corr|replay ; coqc work/cases_C04/*.v',
